@@ -944,6 +944,27 @@ pub fn lex(input: &str) -> Result<Vec<LexerToken>, CompilerError> {
     }
 }
 
+/// Verification hook (compiled only with `--cfg garnish_verif`): the operator table as (spelling, token type) pairs, read
+/// back from the trie that `Lexer::new` builds, sorted by spelling.
+#[cfg(garnish_verif)]
+pub fn verif_operator_list() -> Vec<(String, TokenType)> {
+    fn walk(node: &LexerOperatorNode, prefix: &mut String, out: &mut Vec<(String, TokenType)>) {
+        for (c, child) in node.children.iter() {
+            prefix.push(*c);
+            if let Some(t) = child.token_type {
+                out.push((prefix.clone(), t));
+            }
+            walk(child, prefix, out);
+            prefix.pop();
+        }
+    }
+    let lexer = Lexer::new("");
+    let mut out = vec![];
+    walk(&lexer.operator_tree, &mut String::new(), &mut out);
+    out.sort_by(|a, b| a.0.cmp(&b.0));
+    out
+}
+
 #[cfg(test)]
 mod errors {
     use crate::error::CompilerError;
